@@ -249,6 +249,40 @@ def _renders(node, attr):
     return out
 
 
+def _after_completed_try(call, body_attr):
+    """Is `call` in a statement that follows (in the same block) a try
+    which renders the body and whose every handler ends in raise/return on
+    all paths?  Then it runs exactly when the body completed normally,
+    outside the guarded region -- equivalent to the else clause."""
+    st = call
+    while not isinstance(getattr(st, '_dt_parent', None),
+                         (ast.FunctionDef, ast.If, ast.Try, ast.For,
+                          ast.While, ast.With)):
+        st = st._dt_parent
+    holder = st._dt_parent
+    # only through plain `if` nesting
+    while isinstance(holder, ast.If):
+        st = holder
+        holder = holder._dt_parent
+    lst = None
+    for fld in ('body', 'orelse', 'finalbody'):
+        x = getattr(holder, fld, None)
+        if isinstance(x, list) and st in x:
+            lst = x
+    if lst is None:
+        return False
+    for prev in lst[:lst.index(st)]:
+        if isinstance(prev, ast.Try) and prev.handlers and \
+                not prev.orelse and _renders(
+                    ast.Module(body=prev.body, type_ignores=[]), body_attr):
+            for h in prev.handlers:
+                outs = Interp(_Plain()).block(h.body, _St())
+                if any(o.kind == NORMAL for o in outs):
+                    return False
+            return True
+    return False
+
+
 def rule_placement(model):
     r = RuleResult('C14.R3-R5', 'else body in the try\'s else clause; '
                    'finally body in a finally clause (one site); handler '
@@ -274,6 +308,8 @@ def rule_placement(model):
                 if isinstance(anc, ast.FunctionDef):
                     break
                 prev = anc
+            if not ok:
+                ok = _after_completed_try(c, attrs['body'])
             r.instance(fi.where, c, 'else placement ' + ('ok' if ok
                                                          else 'WRONG'))
             if not ok:
